@@ -44,22 +44,22 @@ let run (toks : string list) : string =
           outs := Printf.sprintf "a%d=rm" ai :: !outs
         end else
         let (eid, svcs) = (match String.index_opt a ':' with
-            | Some i -> (int_of_string (String.sub a 0 i), String.sub a (i+1) (String.length a - i - 1))
-            | None -> (int_of_string a, "")) in
+            | Some i -> (n_of_dec (String.sub a 0 i), String.sub a (i+1) (String.length a - i - 1))
+            | None -> (n_of_dec a, "")) in
         let specs = "NewAccessoryInformation" :: (if svcs = "" then [] else split_on ',' svcs) in
         let shape = L.map (fun n -> nat_of_int (chars_of_service (strip n) + late n)) specs in
         let before = L.length !m.Ids.c_accs in
-        let (m', ok) = Ids.add_accessory !m (n_of_int eid) shape in
+        let (m', ok) = Ids.add_accessory !m eid shape in
         m := m';
         if not ok then (pos := !pos @ [None]; outs := Printf.sprintf "a%d=rej" ai :: !outs)
         else begin
           pos := !pos @ [Some before];
           let (aid, _) = L.nth !m.Ids.c_accs before in
           let ids = String.concat "," (L.map (fun x -> string_of_int (int_of_n x)) (Ids.instance_ids shape)) in
-          outs := Printf.sprintf "a%d=%d:%s" ai (int_of_n aid) ids :: !outs
+          outs := Printf.sprintf "a%d=%s:%s" ai (dec_of_n aid) ids :: !outs
         end) accs;
     ignore js;
-    let final = L.map (fun (aid, shape) -> Printf.sprintf "%d:%s" (int_of_n aid)
+    let final = L.map (fun (aid, shape) -> Printf.sprintf "%s:%s" (dec_of_n aid)
                           (String.concat "," (L.map (fun x -> string_of_int (int_of_n x)) (Ids.instance_ids shape)))) !m.Ids.c_accs in
     String.concat " " (L.rev !outs) ^ " json=" ^ String.concat ";" final ^ " wf=ok"
   | _ -> "badcase"
